@@ -461,6 +461,7 @@ func FuzzC17(f *testing.F) {
 // Regression table (plain, no library): shapes that earlier exploration or
 // the sensitivity trials showed to matter.
 func TestRegressC17(t *testing.T) {
+	c17AfterRecoveredPanic(t)
 	cases := []struct {
 		chunks []string
 		sync   map[int]bool // Sync before chunk i
@@ -494,6 +495,61 @@ func TestRegressC17(t *testing.T) {
 		}
 		if fmt.Sprintf("%q", got) != fmt.Sprintf("%q", c.want) {
 			t.Fatalf("case %d %q: got %q want %q", i, c.chunks, got, c.want)
+		}
+	}
+}
+
+// c17AfterRecoveredPanic: the logger behind a Writer runs user code (hooks, cores, encoder callbacks). If that code
+// panics for one line, the panic is the Write caller's to deal with; once it has recovered, the Writer (nothing was
+// buffered when the chunk arrived) carries on as a Writer does: later chunks are split into exactly their lines, and
+// every call returns.
+func c17AfterRecoveredPanic(t *testing.T) {
+	for _, chunk := range []string{"first\nPANIC\nsecond\nthird\n", "PANIC\nrest\n\nmore\n", "a\nPANIC\n"} {
+		core, logs := observer.New(zapcore.DebugLevel)
+		lg := zap.New(core, zap.Hooks(func(e zapcore.Entry) error {
+			if e.Message == "PANIC" {
+				panic("a hook panics for this line")
+			}
+			return nil
+		}))
+		w := &zapio.Writer{Log: lg}
+		func() {
+			defer func() {
+				if recover() == nil {
+					t.Fatalf("%q: the hook's panic did not reach the caller of Write", chunk)
+				}
+			}()
+			_, _ = w.Write([]byte(chunk))
+		}()
+		logs.TakeAll()
+		done := make(chan string, 1)
+		go func() {
+			for _, c := range []string{"fourth\n", "fif", "th\n", "\n", "last"} {
+				if n, err := w.Write([]byte(c)); n != len(c) || err != nil {
+					done <- fmt.Sprintf("Write(%q) = (%d, %v)", c, n, err)
+					return
+				}
+			}
+			if err := w.Close(); err != nil {
+				done <- fmt.Sprintf("Close: %v", err)
+				return
+			}
+			done <- ""
+		}()
+		select {
+		case msg := <-done:
+			if msg != "" {
+				t.Fatalf("after a recovered panic (%q): %s", chunk, msg)
+			}
+		case <-time.After(20 * time.Second):
+			t.Fatalf("VERIF-DEADLOCK after a recovered panic in the logger's hook (%q) a later Write/Close on the same zapio.Writer did not return", chunk)
+		}
+		var got []string
+		for _, e := range logs.All() {
+			got = append(got, e.Message)
+		}
+		if want := []string{"fourth", "fifth", "", "last"}; fmt.Sprintf("%q", got) != fmt.Sprintf("%q", want) {
+			t.Fatalf("after a recovered panic (%q) the later chunks were logged as %q, want %q", chunk, got, want)
 		}
 	}
 }
